@@ -104,7 +104,7 @@ def run(ctx):
             'after %s at %s a non-error return is reachable without restoring the position: lines %s' % (bad[0].get('callee'), f.loc(bad[0]), f.cfg.block_lines(bad[1])))
         ctx.ob('WH-RESTORE', name, ok, f.loc(f.body), msg, {'movers': len(movers), 'restores': len(restores)})
 
-    ctx.rule('WH-NOGROW', 'wav/aiff/rf64_write_header: a branch on `has_data && psf->dataoffset != psf->header.indx` returns SFE_INTERNAL, and every assignment psf->dataoffset = psf->header.indx is dominated by it', floor=3)
+    ctx.rule('WH-NOGROW', 'wav/aiff/rf64_write_header: a branch on `has_data && psf->dataoffset != psf->header.indx` returns SFE_INTERNAL, and every assignment psf->dataoffset = psf->header.indx and the write of the header bytes themselves are dominated by it', floor=6)
     for name in NOGROW:
         f = wh.get(name) or prog.fn(name)
         guards_ = [b for b in f.cfg.blocks.values() if 'cond' in b and 'psf->dataoffset != psf->header.indx' in f.s(b['cond'])]
@@ -114,6 +114,11 @@ def run(ctx):
         rets = [f.s(x) for x in f.walk() if x['k'] == 'ReturnStmt' and x['kids'] and 'SFE_INTERNAL' in f.s(x['kids'][0])]
         ok = ok and bool(rets)
         ctx.ob('WH-NOGROW', name, ok, f.loc(f.body), 'no-grow guard %s' % ('present and dominates the dataoffset update' if ok else 'MISSING or bypassed'), None)
+        # the guard must come BEFORE the header bytes are written: a header of another length written first has already destroyed audio
+        hw = [c for c in f.calls('psf_fwrite') if f.s(f.unwrap(f.args(c)[0])) == 'psf->header.ptr']
+        okw = bool(hw) and bool(guards_) and all(any(f.cfg.dominates((g['id'], len(g['elems'])), c) for g in guards_ + hd) for c in hw)
+        ctx.ob('WH-NOGROW', name + ':before-write', okw, f.loc(hw[0]) if hw else f.loc(f.body), 'the no-grow guard %s' % ('dominates the write of the header bytes' if okw else
+               'does NOT dominate psf_fwrite (psf->header.ptr ...): the longer header is written over the start of the audio before it is refused'), None)
 
     ctx.rule('UPDATE-ENTRY', 'SFC_UPDATE_HEADER_NOW reaches psf->write_header; in the 8 typed write wrappers and sf_write_raw the auto-update call psf->write_header (psf, SF_TRUE) comes after the '
              'updates of write_current, sf.frames and dataend', floor=10)
